@@ -69,7 +69,18 @@ struct Daemon {
     explicit Daemon(const Config& c) : cfg(c) {
         node = std::make_unique<Node>(fx::peer_id_n(1, 0xE1), cfg);
         server = std::make_unique<daemon::ControlServer>(*node, node_mutex, [this] { ++stop_calls; });
-        server->start("127.0.0.1", 0);
+        // One listening port per worker process, reused from case to case (the server sets SO_REUSEADDR): a fresh ephemeral
+        // port per case leaves every one of them blocked for a minute by the TIME_WAIT remains of its connections, and a
+        // long run eats the whole ephemeral range (which then fails every other program on the machine, too).
+        static std::uint16_t process_port = 0;
+        bool started = false;
+        if (process_port) {
+            try { server->start("127.0.0.1", process_port); started = true; } catch (const std::exception&) { process_port = 0; }
+        }
+        if (!started) {
+            server->start("127.0.0.1", 0);
+            process_port = tu_control::bound_port(*server);
+        }
         port = tu_control::bound_port(*server);
     }
     ~Daemon() { server->stop(); }
